@@ -124,7 +124,7 @@ func runC04(c *Ctx) {
 			}
 			for _, in := range b.Instrs {
 				if fa, ok := in.(*ssa.FieldAddr); ok {
-					if p, isP := fa.X.(*ssa.Parameter); isP && p.Name() == "template" {
+					if p, isP := fa.X.(*ssa.Parameter); isP && paramName(p) == "template" {
 						if _, isSlice := fa.Type().Underlying().(*types.Pointer).Elem().Underlying().(*types.Slice); isSlice {
 							fields[fieldLeaf(fieldName(fa))] = true
 						}
